@@ -31,6 +31,7 @@ import numpy as np
 from vt import alg, extract, sx, npshim, symrun
 from vt.alg import Ctx, X
 from vt.core import Ob, Verdict, Refuted, Unsupported, DISCHARGED, REFUTED
+from . import ops
 from . import common, fem, patches
 
 PROP = "C08"
@@ -1270,13 +1271,15 @@ def build(tier, seed):
         obs.append(Ob(f"C08.projector.{et}", ob_projector, (et,), "X", ("EasyFEA/FEM/_mesh.py::Calc_projector",), bound="one coarse/fine mesh pair", clause="projector reproduces linear fields, rows sum to 1", timeout=900))
     obs.append(Ob("canary.faces", ob_faces_canary, (), "P", expect=REFUTED))
     obs.append(Ob("canary.motion", ob_motion_canary, (), "P", expect=REFUTED))
+    obs += ops.normals_obligations('C08', tier)
+    obs.append(ops.selfcheck_ob('C08'))
     return dict(
         obs=obs, level="other", min_obligations=60,
         explanation=("Element tables (origin, faces, surfaces) are decided exactly from the extracted element files; the real normal, jacobian and measure code is run on exact "
                      "rational / symbolic coordinates (every affine image with a symbolic matrix, both orientations; general QUAD4 with symbolic nodes); the rigid motions of "
                      "Geoms are decided from the AST as isometries. gmsh meshes, point location (KD-tree, least squares) and the projector are outside the exact domain and are "
                      "checked by run-time contracts on native runs (bounded, not counted as proved)."),
-        trusted_base=["numpy model (npshim) and exact field arithmetic (sympy)", "quadrature tables read as exact rationals (2^-40 slack on identities that involve weights)",
+        trusted_base=ops.GP_TRUST + ["numpy model (npshim) and exact field arithmetic (sympy)", "quadrature tables read as exact rationals (2^-40 slack on identities that involve weights)",
                       "gmsh, scipy.spatial.KDTree, scipy.optimize.least_squares (external)"],
         assumptions=["serendipity elements (QUAD8, HEXA20, PRISM15) only reproduce linear polynomials on non-affine elements (mathematical limit of the element, not of the code)",
                      "hexahedra in the location checks have planar faces; curved elements are out of the property's scope (polygons / polyhedra)",
